@@ -824,7 +824,7 @@ pub fn run(ctx: &Ctx) -> PropResult {
     let pz = ctx.iface("pzoo");
     let rnd: Vec<&'static IfaceDesc> = ctx.random_ifaces().into_iter().filter(|i| i.decls.iter().any(|d| !d.params.is_empty())).collect();
     let (s1, s2, s3) = (32usize, 32usize, 32usize);
-    let cases = ctx.scaled(if ctx.thorough { 30_000 } else { 1_500 });
+    let cases = ctx.scaled(if ctx.thorough { 100_000 } else { 6_000 });
     let accs = par::run_shards(
         s1 + s2 + s3,
         ctx.threads,
